@@ -1167,7 +1167,7 @@ package profile
 // ---- C14: massageMappings — when two adjacent memory-map entries are merged, the surviving entry ends where the second
 // one ends and takes over the second one's file name and build id when it has them (keeping its own otherwise); entries
 // that are not merged are appended unchanged ----
-//@ func Profile.massageMappings nosafety
+//@ func Profile.massageMappings nosafety safetykinds=index,slice
 //@   loop 1
 //@     step merged_range: len(mappings) == len(iter(mappings)) ==> lm.Limit == atiter(1, m.Limit)
 //@     step merged_file: len(mappings) == len(iter(mappings)) && lm != m ==> lm.File == ite(atiter(1, m.File) != "", atiter(1, m.File), atiter(1, lm.File))
@@ -1178,6 +1178,7 @@ package profile
 // key; only when neither knows it is one new function created, with the source's name, system name, file name and start
 // line and the next id, appended last and memoised under both the key and the input's id. A line keeps its line and
 // column numbers and gets the mapped function ----
+//@     invariant nonempty: len(mappings) >= 1
 //@ func profileMerger.mapFunction arith bv
 //@   requires pm != nil && pm.p != nil && pm.functions != nil && pm.functionsByID != nil
 //@   ensures nilsrc: src == nil ==> result == nil
